@@ -61,7 +61,7 @@ func NewExtend(src Query, cols []string, exprs []ast.Expr) *Extend {
 
 	for i, expr := range e.exprs {
 		if c, ok := expr.(*ast.Constant); ok {
-			c.Packed = Pack(c.Val.(Packable))
+			c.Packed = PackValue(c.Val)
 		}
 		if id, ok := expr.(*ast.Ident); ok && !e.header.HasField(id.Name) {
 			assert.That(id.Name != e.cols[i])
